@@ -38,6 +38,8 @@ type History struct {
 	Lines    []string
 	Findings []Finding
 	Counts   map[string]int
+	// wrong predecessor links seen by the monitor (directs the C05 violation search)
+	LinkMismatch []LinkMis
 }
 
 // drainOps: advance past every back-off and pull everything, three times
@@ -98,6 +100,7 @@ func RunHistory(t *testing.T, seed int64, gen *Gen, fixed []Op, nops int, drain 
 		h.Lines = w.Lines
 		h.Findings = mon.Findings
 		h.Counts = mon.Counts
+		h.LinkMismatch = mon.LinkMismatch
 	})
 	return h
 }
@@ -108,32 +111,35 @@ func chargedProps(opKind, mismatchKind string) []string {
 	if mismatchKind == "wakes" {
 		return []string{"C10", "C09"}
 	}
+	// a property is charged with every operation its theorems quantify over
 	switch opKind {
 	case "publish", "msg":
-		return []string{"C01", "C02", "C05", "C07", "C14"}
+		return []string{"C01", "C02", "C05", "C06", "C07", "C13", "C14"}
 	case "pull":
-		return []string{"C01", "C02", "C04", "C05", "C06", "C14"}
+		return []string{"C01", "C02", "C03", "C04", "C05", "C06", "C13", "C14"}
 	case "ack":
-		return []string{"C03", "C01"}
+		return []string{"C01", "C02", "C03", "C05", "C13"}
 	case "nack":
-		return []string{"C03", "C04", "C06"}
+		return []string{"C01", "C03", "C04", "C05", "C06"}
 	case "delay":
-		return []string{"C03", "C04"}
+		return []string{"C01", "C03", "C04"}
 	case "dl_sweep":
-		return []string{"C06"}
-	case "seek_time", "seek_snap", "snapshot", "delete_snap":
-		return []string{"C13"}
+		return []string{"C01", "C03", "C05", "C06"}
+	case "seek_time", "seek_snap":
+		return []string{"C01", "C02", "C05", "C13", "C14"}
+	case "snapshot", "delete_snap":
+		return []string{"C01", "C02", "C13"}
 	case "expire_subs":
-		return []string{"C14", "C15"}
+		return []string{"C01", "C14", "C15"}
 	case "set_delay":
 		return []string{"C14"}
 	case "create_topic", "delete_topic", "create_sub", "delete_sub":
-		return []string{"C12", "C17", "C01"}
+		return []string{"C12", "C17", "C01", "C02"}
 	case "advance":
 		return nil
 	}
 	if strings.HasPrefix(opKind, "prune_") {
-		return []string{"C15"}
+		return []string{"C15", "C01"}
 	}
 	return []string{"C01"}
 }
@@ -275,6 +281,7 @@ func runCore(t *testing.T, cfg coreCfg) {
 	base := Seed()
 	nOps, nHist, disagreements := 0, 0, 0
 	reportedSig := map[string]bool{}
+	focus := ""
 	// corpus of minimised past failures runs first
 	corpus, _ := filepath.Glob(filepath.Join(corpusDir(), "*.json"))
 	for _, cf := range corpus {
@@ -305,7 +312,14 @@ func runCore(t *testing.T, cfg coreCfg) {
 	}
 	for s := 0; s < seeds; s++ {
 		seed := base*100003 + int64(s)
-		gen := NewGen(seed, cfg.profile)
+		prof := cfg.profile
+		if focus != "" {
+			// the correspondence broke on this kind of operation: look for a concrete failing history
+			// among histories that use it (and what makes its effect visible) much more often
+			prof = focusProfile(prof, focus)
+			st.Count("focused_histories", 1)
+		}
+		gen := NewGen(seed, prof)
 		h := RunHistory(t, seed, gen, nil, cfg.nops, cfg.drain)
 		nHist++
 		nOps += len(h.Ops)
@@ -337,6 +351,29 @@ func runCore(t *testing.T, cfg coreCfg) {
 			p := writeReplay(fmt.Sprintf("%s-%s-%d.json", cfg.prop, f.Sig, seed), replayFile{Property: cfg.prop, Sig: f.Sig, What: what, Seed: seed, Ops: small, Trace: traceOf(hs.Lines, 60)})
 			st.Violate(Violation{What: fmt.Sprintf("[%s] %s (history of %d operations, shrunk from %d)", f.Sig, what, len(small), len(h.Ops)), Replay: p, FoundInput: true, Sig: f.Sig})
 		}
+		// directed search (C05): a delivery was published without the link to its same-key predecessor
+		// that the mechanism prescribes; make the consequence observable: re-open the predecessor by a
+		// seek to just before it and pull
+		if cfg.prop == "C05" && len(h.LinkMismatch) > 0 && !reportedSig["overtake-link-missing"] {
+			lm := h.LinkMismatch[0]
+			ext := append(append([]Op{}, h.Ops[:lm.At+1]...), Op{K: "advance", D: Ms + 1}, Op{K: "seek_time", Sub: lm.Sub, D: lm.PredPublished - 1},
+				Op{K: "advance", D: Ms + 1}, Op{K: "pull", Sub: lm.Sub, Max: 100}, Op{K: "advance", D: Ms + 1}, Op{K: "pull", Sub: lm.Sub, Max: 100})
+			he := RunHistory(t, seed, nil, ext, 0, false)
+			st.Count("directed_link_searches", 1)
+			for _, f := range he.Findings {
+				if f.Prop == "C05" && !reportedSig[f.Sig] {
+					reportedSig[f.Sig] = true
+					small := shrink(t, seed, ext, f.Prop, f.Sig)
+					hs := RunHistory(t, seed, nil, small, 0, false)
+					what := f.What
+					if g := hasFinding(hs.Findings, f.Prop, f.Sig); g != nil {
+						what = g.What
+					}
+					p := writeReplay(fmt.Sprintf("%s-%s-%d.json", cfg.prop, f.Sig, seed), replayFile{Property: cfg.prop, Sig: f.Sig, What: what, Seed: seed, Ops: small, Trace: traceOf(hs.Lines, 60)})
+					st.Violate(Violation{What: fmt.Sprintf("[%s] %s (history of %d operations, found by the directed search after a wrong predecessor link)", f.Sig, what, len(small)), Replay: p, FoundInput: true, Sig: f.Sig})
+				}
+			}
+		}
 		// correspondence
 		d, err := m.Check(h.Lines)
 		if err != nil {
@@ -354,6 +391,12 @@ func runCore(t *testing.T, cfg coreCfg) {
 			st.Count("disagreements_any", 1)
 			if charged {
 				disagreements++
+				if focus == "" {
+					focus = opk
+					if seeds < s+60 {
+						seeds = s + 60 // give the focused search room even in the quick tier
+					}
+				}
 				if !reportedSig["correspondence"] {
 					reportedSig["correspondence"] = true
 					p := writeReplay(fmt.Sprintf("%s-correspondence-%d.json", cfg.prop, seed), replayFile{Property: cfg.prop, Sig: "correspondence", Seed: seed, Ops: h.Ops,
@@ -376,6 +419,44 @@ func runCore(t *testing.T, cfg coreCfg) {
 	st.Set("traces_validated_against_impl", nHist-disagreements)
 	st.Set("rule", "random API-level histories (profile "+cfg.profile.Name+") over 4 topics and 4-9 subscriptions with random filter/ordering/retry/dead-letter/retention configuration; one evaluation = one executed operation, checked by the implementation-side monitors and compared (response, wake set, full dump of the five tables) with the Lean model; distinct = distinct seeds (each yields a different history)")
 	st.Summary = fmt.Sprintf("histories=%d ops=%d disagreements=%d", nHist, nOps, disagreements)
+}
+
+// focusProfile boosts the operations that exercise, and make visible, the effect of operation kind k.
+func focusProfile(p Profile, k string) Profile {
+	p.Name += "+focus-" + k
+	switch k {
+	case "snapshot", "seek_snap", "delete_snap":
+		p.Snap += 5
+		p.Seek += 5
+		p.Ack += 3
+		p.NoSeek = false
+	case "seek_time":
+		p.Seek += 6
+		p.Ack += 3
+		p.NoSeek = false
+	case "dl_sweep":
+		p.Sweep += 5
+		p.Ack += 3
+		p.Advance += 3
+		p.NoDL = false
+	case "nack", "delay":
+		p.Nack += 4
+		p.Delay += 4
+		p.Ack += 2
+	case "publish", "msg":
+		p.Publish += 3
+		p.Seek += 3
+		p.Ack += 3
+		p.NoSeek = false
+	case "expire_subs":
+		p.Maint += 6
+		p.BigAdvance = true
+	}
+	if strings.HasPrefix(k, "prune_") {
+		p.Maint += 6
+		p.BigAdvance = true
+	}
+	return p
 }
 
 func hasConcrete(vs []Violation) bool {
@@ -514,6 +595,7 @@ func TestCoreSmoke(t *testing.T) {
 }
 
 var (
+	profC02 = Profile{Name: "C02", Publish: 5, Pull: 6, Ack: 4, Nack: 2, Delay: 2, Advance: 4, Seek: 3, Snap: 3, Maint: 2, Sweep: 1, Churn: 1}
 	profC01 = Profile{Name: "C01", Publish: 6, Pull: 6, Ack: 3, Nack: 2, Delay: 2, Advance: 4, Seek: 1, Snap: 1, Maint: 3, Sweep: 1, Churn: 1}
 	profC03 = Profile{Name: "C03", Publish: 5, Pull: 7, Ack: 6, Nack: 4, Delay: 4, Advance: 4, Maint: 1, Sweep: 1, NoSeek: true}
 	profC04 = Profile{Name: "C04", Publish: 4, Pull: 9, Ack: 1, Nack: 3, Delay: 4, Advance: 6, NoSeek: true, NoDL: true}
@@ -528,7 +610,7 @@ func TestC01(t *testing.T) {
 	runCore(t, coreCfg{prop: "C01", profile: profC01, quickSeeds: 40, thoroughSeeds: 700, nops: 100, drain: true})
 }
 func TestC02(t *testing.T) {
-	runCore(t, coreCfg{prop: "C02", profile: ProfileAll, quickSeeds: 40, thoroughSeeds: 700, nops: 100, drain: true})
+	runCore(t, coreCfg{prop: "C02", profile: profC02, quickSeeds: 40, thoroughSeeds: 700, nops: 100, drain: true})
 }
 func TestC03(t *testing.T) {
 	runCore(t, coreCfg{prop: "C03", profile: profC03, quickSeeds: 40, thoroughSeeds: 700, nops: 100})
